@@ -3,4 +3,4 @@ From Coq Require Import ExtrOcamlBasic.
 From ZV Require Import Part.Model Part.NsMeta.
 Extraction Language OCaml.
 Extraction "model.ml" Z.of_N N.of_nat Nat.add hashed_key part part_of extract_namespace route_key group_keys group_kvs
-  same_namespace del_keys exists_keys merged_del merged_exists pstore plset_reply plset_get apply_sets kv_get ns_step ns_init ns_route.
+  same_namespace del_keys exists_keys merged_del merged_exists pstore plset_reply plset_get apply_sets kv_get ns_step ns_init ns_route ns_route_all ns_hosting.
